@@ -14,6 +14,8 @@ impl<V> IndexMapE<V> {
     pub fn new() -> (r: Self) ensures r.ents().len() == 0 { unimplemented!() }
     #[verifier::external_body]
     pub fn len(&self) -> (r: usize) ensures r == self.ents().len() { unimplemented!() }
+    pub fn entry(&self, i: usize) -> (r: (&Name, &V)) requires i < self.ents().len() ensures *r.0 == self.ents()[i as int].0, *r.1 == self.ents()[i as int].1
+    { let e = &self.entries[i]; (&e.0, &e.1) }
     #[verifier::external_body]
     pub fn insert(&mut self, k: Name, v: V) -> (r: Option<V>)
         ensures !has_key(old(self).ents(), k@) ==> final(self).ents() == old(self).ents().push((k, v)),
